@@ -255,6 +255,9 @@ pub struct NestedTrieDawg {
     num_keys: usize,
     /// Memory pool for allocation
     memory_pool: Option<Arc<SecureMemoryPool>>,
+    /// Set by build_from_keys: equivalent states are merged (suffixes are shared) and the
+    /// transition table is sized to the compacted automaton
+    minimized: bool,
 }
 
 impl NestedTrieDawg {
@@ -297,6 +300,7 @@ impl NestedTrieDawg {
             root_state: 0,
             num_keys: 0,
             memory_pool,
+            minimized: false,
         })
     }
 
@@ -325,11 +329,44 @@ impl NestedTrieDawg {
             self.build_terminal_rank_select()?;
         }
 
+        self.minimized = true;
+
+        Ok(())
+    }
+
+    /// Turn a minimized automaton back into a plain trie with room to grow.
+    ///
+    /// After build_from_keys a state can be the end of several keys and the transition table
+    /// has no room for new states, so a key cannot be added in place: an extension of a shared
+    /// state would also extend every other key that ends there.
+    fn expand_to_trie(&mut self) -> Result<()> {
+        // The automaton is acyclic: collect its language by walking every path
+        let mut keys: Vec<Vec<u8>> = Vec::new();
+        let mut stack: Vec<(u32, Vec<u8>)> = vec![(self.root_state, Vec::new())];
+        while let Some((state, path)) = stack.pop() {
+            if (state as usize) < self.states.len() && self.states[state as usize].is_terminal() {
+                keys.push(path.clone());
+            }
+            for (symbol, target) in self.transitions.get_outgoing_transitions(state) {
+                let mut next_path = path.clone();
+                next_path.push(symbol);
+                stack.push((target, next_path));
+            }
+        }
+
+        self.clear();
+        for key in &keys {
+            self.insert_key(key)?;
+        }
         Ok(())
     }
 
     /// Insert a single key into the trie structure
     fn insert_key(&mut self, key: &[u8]) -> Result<()> {
+        if self.minimized {
+            self.expand_to_trie()?;
+        }
+
         // An automaton that has never been built has no root yet (Trie::insert on a fresh
         // instance would otherwise hand out state 0 to the first child and loop on the root)
         if self.states.is_empty() {
@@ -540,6 +577,7 @@ impl NestedTrieDawg {
         self.terminal_rank_select = None;
         self.root_state = 0;
         self.num_keys = 0;
+        self.minimized = false;
 
         if let Some(ref mut cache) = self.cache {
             cache.clear();
